@@ -5,8 +5,10 @@ from props.common import bounded
 
 LEVEL_TEXT = ("Deductive (dates as real microsecond counts, arithmetic over the reals - flagged): serialize_date against the statement's serial "
               "(days since 1899-12-30 from 1 March 1900 on), parse_date against the inverse, epoch_seconds; lemmas: round trips, strict "
-              "monotonicity, additivity; consumers (comparator, arithmetic table, DATEVALUE, DAYS, N) use that serial.  Bounded (native floats): "
-              "every calendar day, seeded millisecond date-times, every integer serial.")
+              "monotonicity, additivity; consumers: the comparator (convert_other and the five rich comparisons see the serial, whatever the number "
+              "type on the other side), DATEVALUE, DAYS.  Bounded (native floats): every calendar day, seeded millisecond date-times, every "
+              "integer serial; end to end: date +/- n, date - date, N, DAYS, DATEVALUE and 6 comparison operators x 7 numbers around the serial "
+              "(int and float, either side) on seeded date-times.")
 TRUSTED = ['datetime/timedelta arithmetic (civil <-> ordinal), microsecond rounding of timedelta(seconds=float)', 'machine arithmetic treated as mathematical']
 
 
